@@ -248,7 +248,8 @@ def gen_cases(tier: str, seed: int) -> List[Dict]:
         return S.make_poly_spec("a", nm, exps, shape, rng, atoms if atoms is not None else (4 if quick else 6), zero_prob=zero, literal_prob=0.2, mode=mode or rng.choice(["raw", "clean"]))
 
     # strided views (poly.T, poly[::-1], swapaxes): not C-contiguous
-    for shape, view in [((2, 3), "T"), ((3,), "rev"), ((2, 2), "rev"), ((2, 1, 3), "swap"), ((1, 3), "T")]:
+    # (+ axes rotated by one in 3-d, reversed axes in 4-d: layouts whose axis permutation is not its own inverse)
+    for shape, view in [((2, 3), "T"), ((3,), "rev"), ((2, 2), "rev"), ((2, 1, 3), "swap"), ((1, 3), "T"), ((2, 3, 2), "cyc"), ((3, 2, 2), "cyc"), ((2, 1, 3, 2), "T"), ((2, 2, 3, 2), "T"), ((2, 3, 2, 2), "cyc")]:
         for kind in ("pickle", "copy"):
             sp = P(shape, nterms=2, mode="raw")
             sp["view"] = view
